@@ -390,7 +390,7 @@ func verifC08Program(rt *rapid.T, c *kit.Case) {
 
 func TestVerifC08_StorageReadBack(t *testing.T) {
 	kit.Run(t, "C08", kit.Budget{Quick: 4000, Thorough: 60000},
-		"programs of <=25 steps on one account of a real AccountsDB: writes of 1-5 keys (0-40 bytes) with values of 0-200 bytes (thorough: up to 70 000; tails equal to key, address, key||address; empty = delete) passed in 6 buffer layouts (exact copies, value with spare capacity, key with spare capacity, key|value|spare and value|key|spare in one array, reused scratch buffer) and the caller memory left alone / spare overwritten / completely overwritten after the call; reads before SaveAccount, after it, after Commit, after reload must equal private copies taken before the call; data-trie leaf == value||key||address; non-trivial = a non-empty write whose value buffer has spare capacity >= len(key)+32 and is overwritten or reused afterwards",
+		"programs of <=25 steps on one account of a real AccountsDB: writes of 1-5 keys (0-40 bytes) with values of 0-200 bytes (thorough: up to 70 000; tails equal to key, address, key||address; empty = delete) passed in 6 buffer layouts (exact copies, value with spare capacity, key with spare capacity, key|value|spare and value|key|spare in one array, reused scratch buffer) and the caller memory left alone / spare overwritten / completely overwritten after the call; the account may be removed and created again at the same address between commits (old data trie cached or not); reads before SaveAccount, after it, after Commit, after reload must equal private copies taken before the call (keys of a removed incarnation read empty); data-trie leaf == value||key||address; non-trivial = a non-empty write whose value buffer has spare capacity >= len(key)+32 and is overwritten or reused afterwards",
 		verifC08Program)
 }
 
